@@ -1150,6 +1150,7 @@ func (ex *Exec) fpToInt(t *Term, fw, iw int, signed bool) *Term {
 }
 
 func (ex *Exec) fpToFp(t *Term, fw, tw int) *Term {
+	tb := ex.tb
 	if fw == tw {
 		return t
 	}
@@ -1167,5 +1168,22 @@ func (ex *Exec) fpToFp(t *Term, fw, tw int) *Term {
 		}
 	}
 	fa := "(" + fpSort(fw) + " %0)"
-	return ex.fpResult("("+fpSort(tw)+" RNE "+fa+")", tw, t)
+	expr := "(" + fpSort(tw) + " RNE " + fa + ")"
+	val := tb.Raw("(fp.to_ieee_bv "+expr+")", BV(tw), t)
+	isNaN := tb.Raw("(fp.isNaN "+fa+")", BoolSort, t)
+	// NaN operands: amd64 CVTSS2SD / CVTSD2SS keep the sign, move the payload to the top of the new
+	// significand (dropping low bits when narrowing) and set the quiet bit.
+	var nan *Term
+	if fw == 32 {
+		sign := tb.Extract(t, 31, 31)
+		mant := tb.Extract(t, 22, 0)
+		nan = tb.Concat(tb.Concat(sign, tb.Const(0x7ff, 11)), tb.Concat(mant, tb.Const(0, 29)))
+		nan = tb.Or(nan, tb.Const(1<<51, 64))
+	} else {
+		sign := tb.Extract(t, 63, 63)
+		mant := tb.Extract(t, 51, 29)
+		nan = tb.Concat(tb.Concat(sign, tb.Const(0xff, 8)), mant)
+		nan = tb.Or(nan, tb.Const(1<<22, 32))
+	}
+	return tb.Ite(isNaN, nan, val)
 }
